@@ -530,9 +530,57 @@ pub fn apply(prog: &Program, kind: usize, c: &mut Choices) -> Option<(Program, S
         if kind == 23 && !applied {
             // program-level: recursive type or constant
             if pass == 0 {
-                count = 3;
+                count = 4;
             } else {
-                match target.unwrap_or(0) % 3 {
+                match target.unwrap_or(0) % 4 {
+                    3 => {
+                        // a generated cycle of 1-3 declarations; every link goes through one of the
+                        // forms a type can be mentioned in (directly, optional, list, anonymous record,
+                        // Result, or as the argument of a generic wrapper that uses its parameter in
+                        // one of these forms)
+                        let base = p.decls.len();
+                        let n = 1 + c.below(3);
+                        let wrap_form = c.below(5);
+                        let wrapper = base + n;
+                        let mut used_wrapper = false;
+                        let mut forms = Vec::new();
+                        let through = |c: &mut Choices, target: Ty, used_wrapper: &mut bool| -> (Ty, &'static str) {
+                            match c.below(7) {
+                                0 => (target, "directly"),
+                                1 => (Ty::opt(target), "through `?`"),
+                                2 => (Ty::list(target), "through List"),
+                                3 => (Ty::Anon(vec![("v".into(), target)]), "through an anonymous record"),
+                                4 => (Ty::Result(Box::new(Ty::Int(IntTy::I32)), Box::new(target)), "through Result"),
+                                _ => {
+                                    *used_wrapper = true;
+                                    (Ty::Rec(wrapper, vec![target]), "as the argument of a generic record")
+                                }
+                            }
+                        };
+                        for i in 0..n {
+                            let next = base + (i + 1) % n;
+                            let next_is_enum = (i + 1) % n % 2 == 1;
+                            let target = if next_is_enum { Ty::Enum(next, vec![]) } else { Ty::Rec(next, vec![]) };
+                            let (t, how) = through(c, target, &mut used_wrapper);
+                            forms.push(how);
+                            if i % 2 == 1 {
+                                p.decls.push(TypeDecl::Enum { name: format!("ZC{i}"), params: vec![], variants: vec![("ZCa".to_string() + &i.to_string(), vec![Ty::Int(IntTy::U8), t]), ("ZCb".to_string() + &i.to_string(), vec![])] });
+                            } else {
+                                p.decls.push(TypeDecl::Record { name: format!("ZC{i}"), params: vec![], fields: vec![("k".into(), Ty::Int(IntTy::U8)), ("x".into(), t)] });
+                            }
+                        }
+                        if used_wrapper {
+                            let inner = match wrap_form {
+                                0 => Ty::Param(0),
+                                1 => Ty::opt(Ty::Param(0)),
+                                2 => Ty::list(Ty::Param(0)),
+                                3 => Ty::Anon(vec![("v".into(), Ty::Param(0))]),
+                                _ => Ty::Result(Box::new(Ty::Param(0)), Box::new(Ty::Bool)),
+                            };
+                            p.decls.push(TypeDecl::Record { name: "ZCW".into(), params: vec!["T0".into()], fields: vec![("inner".into(), inner)] });
+                        }
+                        desc = format!("a cycle of {n} type declaration(s) added, linked {}{}", forms.join(", "), if used_wrapper { format!(" (generic wrapper form {wrap_form})") } else { String::new() });
+                    }
                     0 => {
                         let i = p.decls.len();
                         p.decls.push(TypeDecl::Record { name: "ZZ".into(), params: vec![], fields: vec![("x".into(), Ty::Rec(i, vec![]))] });
